@@ -554,7 +554,6 @@ func c02Split(text string, recs []sm.Record) []string {
 	return []string{a.String(), b.String()}
 }
 
-
 // c02Big: one large input (40 000 records, about 2.4 MB) evaluates to the same total whether it is named as a file,
 // spread over two files or piped through standard input (nothing may be cut off silently on any input path).
 func c02Big(c *fw.Ctx) {
